@@ -1,6 +1,6 @@
 import PgVerif.Model.LR
 import PgVerif.Model.Forest
-import PgVerif.Spec.Chart
+import PgVerif.Spec.SPPF
 /-!
 `pgmodel`: line-protocol driver. One request per line (a command word followed
 by natural numbers), one reply line per request. Context commands (`grammar`,
@@ -190,6 +190,14 @@ def handle (st : St) (cmd : String) (args : List Nat) : St × String :=
          (st, if ok then "derives 1" else "derives 0")
        | none => (st, "bad-tree"))
     | _, _ => (st, "bad-derives")
+  | "sppf" =>
+    -- sppf <fuel> <consume>: packed alternatives of the complete SPPF: A i j p n k1..kn ...
+    match st.inp, args with
+    | some inp, [fuel, consume] =>
+      (st, match sppfAlts st.g inp fuel (consume != 0) with
+        | some alts => "sppf " ++ natList (alts.flatMap (fun a => [a.A, a.i, a.j, a.p, a.ks.length] ++ a.ks))
+        | none => "sppf fuel")
+    | _, _ => (st, "bad-sppf")
   | "fwf" => (st, if st.F.wf then "fwf 1" else "fwf 0")
   | "sols" =>
     match args with
